@@ -125,7 +125,18 @@ Lemma vl_utf8_or_default_ok s : utf8_valid s = true -> vl_utf8_or_default s = s.
 Proof. intros H. unfold vl_utf8_or_default. now rewrite H. Qed.
 
 Lemma vl_str_ok_inv s : vl_str_ok s = true -> utf8_valid s = true /\ vl_no_nul s = true.
-Proof. unfold vl_str_ok. intros H. now apply andb_true_iff in H. Qed.
+Proof.
+  unfold vl_str_ok. intros H. apply andb_true_iff in H as [H H2]. apply andb_true_iff in H as [H0 H1]. auto.
+Qed.
+
+Lemma vl_str_ok_bytes s : vl_str_ok s = true -> bytes_ok s = true.
+Proof.
+  unfold vl_str_ok. intros H. apply andb_true_iff in H as [H H2]. apply andb_true_iff in H as [H0 H1]. auto.
+Qed.
+
+Lemma run_Alloc {A} n (k : prog A) s : run (Alloc n k) s = run k s.
+Proof. reflexivity. Qed.
+
 
 (** ** Bytes as one-byte integers *)
 Lemma be1_byte b : b < 256 -> be 1 b = [b].
@@ -183,3 +194,17 @@ Proof. reflexivity. Qed.
 (** a 32-bit-size box: ISO/IEC 14496-12 4.2 *)
 Lemma lenN_box8 (pl : bytes) code : lenN (be 4 (8 + lenN pl) ++ be 4 code ++ pl) = 8 + lenN pl.
 Proof. rewrite !lenN_app, !lenN_be. lia. Qed.
+
+(** [for _ in 0..n { v.push(reader.read_u8()?) }] over bytes *)
+Lemma run_rd_n_u8_bytes {B} (md : bytes) (k : list N -> prog B) d l p rest :
+  bytes_ok md = true ->
+  run (bind (rd_n (length md) rd_u8) k) (mkStream d l p (md ++ rest))
+  = run (k md) (mkStream d l (p + lenN md) rest).
+Proof.
+  intros H.
+  pose proof (run_rd_n_bind rd_u8 (be 1) 1 md k d l p rest) as E.
+  rewrite (flat_map_be1 md H), N.mul_1_l in E. apply E.
+  intros x k' p' rest' Hx. apply run_rd_u_bind; [lia|].
+  rewrite pow256_1. unfold bytes_ok in H. rewrite forallb_forall in H.
+  specialize (H x Hx). unfold byte_ok in H. now apply N.ltb_lt in H.
+Qed.
